@@ -492,7 +492,7 @@ func init() {
 	fw.Register(&fw.Check{
 		ID:    "C14",
 		Level: "exploration",
-		Rule:  "exhaustive enumeration of container compositions: templates = every accessory constructor of the library plus a custom accessory per service constructor × {plain, hidden, primary, linked}; explicit id ∈ {auto,1,2,3,7}; all single accessories, all pairs (quick: first element restricted to library accessories and every 8th custom one), all triples over a reduced template set, two large compositions (40, 150 accessories), for every service constructor an accessory rebuilt with a previously published service object, accessories JSON-encoded before being added, services without characteristics in every position, and removal of rejected / member accessories followed by another add. Each container is built twice. Oracle: accepted accessories have pairwise distinct non-zero ids, instance ids distinct and non-zero per accessory, both builds give byte-identical JSON, JSON is well-formed HAP (aid/iid/type everywhere, valid format, permissions within the HAP vocabulary, linked ids resolvable). distinct_nontrivial = distinct (size, accepted count, id-mode tuple) classes Plus every history of length ≤4 (thorough ≤6) over 10 construction operations on one container (add A / B / C with explicit id, remove A / B, add services S1, S2 to A and S3 to B while under construction, link S1→S2 and S2→S1): after every operation the member list, id uniqueness and JSON well-formedness hold and the same history on fresh objects gives the same database.",
+		Rule:  "exhaustive enumeration of container compositions: templates = every accessory constructor of the library plus a custom accessory per service constructor × {plain, hidden, primary, linked}; explicit id ∈ {auto,1,2,3,7}; all single accessories, all pairs (quick: first element restricted to library accessories and every 8th custom one), all triples over a reduced template set, two large compositions (40, 150 accessories), for every service constructor an accessory rebuilt with a previously published service object, accessories JSON-encoded before being added, services without characteristics in every position, and removal of rejected / member accessories followed by another add. Each container is built twice. Oracle: accepted accessories have pairwise distinct non-zero ids, instance ids distinct and non-zero per accessory, both builds give byte-identical JSON, JSON is well-formed HAP (aid/iid/type everywhere, valid format, permissions within the HAP vocabulary, linked ids resolvable). distinct_nontrivial = distinct (size, accepted count, id-mode tuple) classes Plus every history of length ≤4 (thorough ≤6) over 10 construction operations on one container (add A / B / C with explicit id, remove A / B, add services S1, S2 to A and S3 to B while under construction, link S1→S2 and S2→S1): after every operation the member list, id uniqueness and JSON well-formedness hold and the same history on fresh objects gives the same database. Plus, in a subprocess built with a scheduling point before EVERY statement of hc's packages (textual insertion through go build -overlay): every interleaving with at most 1 (thorough 2) preemptions of pairs of operations on disjoint objects — and, where the property is about served requests, of pairs of handlers on two verified connections of one accessory touching different characteristics — each side must observe exactly what it observes when the two run one after the other (module-level mutable state is what makes them differ).",
 		Run:   c14Run,
 		Replay: func(c *fw.Ctx, raw json.RawMessage) {
 			var cas c14Case
